@@ -529,6 +529,59 @@ def f5_cells(seed, n_random=12):
     return out
 
 
+# ------------------------------------------------------------------------------------------- filtermaps: accept / reject
+def filtermap_cells():
+    """accept / reject leave the filtermap at once with Verdict.Accept(payload) / Verdict.Reject(payload): nothing after them
+    runs (C08), the payload arrives in Rust's Verdict (C01, C05), every live host value is released on that path (C03)"""
+    out = []
+    i32 = "i32"
+    a, b = Var("a", i32), Var("b", i32)
+    zero, one = Lit(i32, 0), Lit(i32, 1)
+    em = lambda e: Host("emit_i32", [e], "unit")
+    pu = lambda e: Host("pure_i32", [e], i32)
+    vu, vv = ("verdict", i32, "unit"), ("verdict", i32, i32)
+    iv = Var("i", i32)
+
+    def fm(name, fam, params, vty, stmts, modes):
+        f = FnDef("main", params, vty, Block(stmts, None, "unit"))
+        f.filtermap = True
+        out.append(P(name, fam, Program([f]), modes))
+    when = lambda c, stmts: ExprStmt(If(c, Block(stmts, None, "unit"), None, "unit"))
+    fm("f7_filtermap_accept_reject_unit", "F7", [("a", i32)], vu,
+       [ExprStmt(em(a)), when(Bin(">", a, zero, "bool"), [ExprStmt(em(one)), ExprStmt(Accept(a, vu)), ExprStmt(em(Lit(i32, 99)))]), ExprStmt(em(Lit(i32, 2))), ExprStmt(Reject(None, vu))],
+       {"trace", "value"})
+    fm("f7_filtermap_accept_in_loop", "F7", [("a", i32)], vu,
+       [Let("i", i32, zero), ExprStmt(While(Bin("<", iv, Lit(i32, 3), "bool"), Block([when(Bin("==", iv, a, "bool"), [ExprStmt(Accept(Bin("*", iv, Lit(i32, 10), i32), vu))]),
+                                                                                  ExprStmt(em(iv)), Assign(iv, one, "+")], None, "unit"))), ExprStmt(em(Lit(i32, 7))), ExprStmt(Reject(None, vu))],
+       {"trace", "value"})
+    fm("f7_filtermap_both_payloads", "F7", [("a", i32), ("b", i32)], vv,
+       [when(Bin("<", a, b, "bool"), [ExprStmt(Reject(pu(a), vv)), ExprStmt(em(a))]), ExprStmt(em(b)), ExprStmt(Accept(pu(Bin("+", a, b, i32)), vv))],
+       {"trace", "value"})
+    ot = ("opt", i32)
+    fm("f7_filtermap_accept_in_match", "F7", [("a", i32), ("b", i32)], vv,
+       [Let("o", ot, If(Bin("<", a, b, "bool"), Block([], Ctor(ot, "Some", [a]), ot), Block([], Ctor(ot, "None", []), ot), ot)),
+        ExprStmt(Match(Var("o", ot), [("Some", ["v"], Bin(">", Var("v", i32), zero, "bool"), Block([ExprStmt(em(Var("v", i32))), ExprStmt(Accept(Var("v", i32), vv))], None, "unit")),
+                                      ("Some", ["v"], None, Block([ExprStmt(em(zero))], None, "unit")),
+                                      ("None", [], None, Block([ExprStmt(em(b))], None, "unit"))], "unit")),
+        ExprStmt(Reject(b, vv))],
+       {"trace", "value"})
+    T = "Tracked"
+    mk = lambda e: Host("mk", [e], T)
+    peek = lambda e: Host("peek", [e], i32)
+    fm("f6_filtermap_accept_with_live_values", "F6", [("a", i32)], vu,
+       [Let("t", T, mk(a)), when(Bin(">", a, zero, "bool"), [Let("u", T, mk(one)), ExprStmt(Accept(Bin("+", peek(Var("u", T)), peek(Var("t", T)), i32), vu))]), ExprStmt(Reject(None, vu))],
+       {"ledger", "trace", "value"})
+    fm("f6_filtermap_accept_in_loop", "F6", [("a", i32)], vu,
+       [Let("t", T, mk(a)), Let("i", i32, zero),
+        ExprStmt(While(Bin("<", iv, Lit(i32, 3), "bool"), Block([Let("u", T, mk(iv)), when(Bin("==", iv, a, "bool"), [ExprStmt(Accept(peek(Var("u", T)), vu))]), Assign(iv, one, "+")], None, "unit"))),
+        ExprStmt(Reject(None, vu))],
+       {"ledger", "trace", "value"})
+    fm("f6_filtermap_reject_payload_from_tracked", "F6", [("a", i32), ("b", i32)], vv,
+       [Let("t", T, mk(a)), when(Bin("<", a, b, "bool"), [ExprStmt(Reject(peek(Var("t", T)), vv))]), Let("u", T, Var("t", T)), ExprStmt(Accept(Bin("+", peek(Var("u", T)), b, i32), vv))],
+       {"ledger", "trace", "value"})
+    return out
+
+
 # ------------------------------------------------------------------------------------------- F6 droppable values
 def f6_cells():
     out = []
@@ -1094,7 +1147,7 @@ def corpus(seed, tier):
     progs = f1_cells() + f2_cells() + f3_random(seed, n3) + f4_cells() + f5_cells(seed, 8 if quick else 240) + f6_cells() \
         + f7_cells() + f10_cells() + f11_cells() + f3_random(seed + 1000, n7, depth=2, effects=True, fam="F7R") \
         + f8_cells(seed, 40 if quick else 1600) + f9_cells() + f12_random(seed, n12, False) + f12_random(seed, n12 // 2, True) \
-        + f6_random(seed, 60 if quick else 2400) + f13_cells()
+        + f6_random(seed, 60 if quick else 2400) + f13_cells() + filtermap_cells()
     if not quick:
         progs += f3_random(seed + 5000, 1200, depth=4, fam="F3")
     return progs
